@@ -31,6 +31,7 @@ THEOREMS_COUNTS = [
     "Scc.Props.C11.C11_erase_once",
     "Scc.Props.C11.C11_no_erase_of_kept",
     "Scc.Props.C11.C11_share_ops",
+    "Scc.Props.C11.C11_counts_balance",
 ]
 
 X86_REGS = ["rsp", "rcx", "rbx", "rbp", "rax", "rdx", "rsi", "rdi", "r8", "r9", "r10", "r11", "r12", "r13", "r14", "r15"]
@@ -245,14 +246,14 @@ def subst_oracle(ops, kinds, srcs):
 
 def main():
     chk = Check("C11", level="proof")
-    chk.checker_cmd = "lake build Scc.Props.C11 Scc.Props.C11Counts sccmodel; lake env lean Scc/Audit/Audit_C11_C11.lean; lake env lean Scc/Audit/Audit_C11_C11Counts.lean"
+    chk.checker_cmd = "lake build Scc.Props.C11 Scc.Props.C11Balance sccmodel; lake env lean Scc/Audit/Audit_C11_C11.lean; lake env lean Scc/Audit/Audit_C11_C11Balance.lean"
     chk.trusted = [
         "Lean 4.33 kernel; axioms propext, Classical.choice, Quot.sound only",
         "hand-written Lean model of parallel_moves.rs / substitution.rs and the three backends' mov/store_temporary/restore_temporary, tied by exact comparison of emitted move sequences with the real code (mock backend for the generic layer, real backends for the concrete instructions)",
         "the converter from printed assembly to the model's instruction notation (checks/c11.py)",
     ]
     chk.assumptions = [
-        "which erase/share operation on which temporary with which n, and that it precedes the moves: C11_refcount_ops; their effect on an abstract count store (erase = one release of the object in the temporary, share n = n more references): C11_counts, C11_counts_untouched, C11_erase_once; that erase_block/share_block_n realise this on the heap is the memory contract decided under C09/C10",
+        "which erase/share operation on which temporary with which n, and that it precedes the moves: C11_refcount_ops; their effect on an abstract count store (erase = one release of the object in the temporary, share n = n more references): C11_counts, C11_counts_balance, C11_counts_untouched, C11_erase_once; that erase_block/share_block_n realise this on the heap is the memory contract decided under C09/C10",
     ]
     chk.rule = (
         "exhaustive: every functional move graph (each target has one source) with up to 4 targets over a "
@@ -268,7 +269,7 @@ def main():
             "Scc.PMoves.ProofsX86", "Scc.PMoves.ProofsA64RV", "Scc.PMoves.ProofsOnce", "Scc.PMoves.ProofsSubst",
             "Scc.PMoves.ProofsSubstBackends", "Scc.PMoves.ProofsCheck", "Scc.Props.C11"]
     okp, _, outp = common.prove(chk, "C11", mods, THEOREMS)
-    okp2, _, outp2 = common.prove(chk, "C11", ["Scc.PMoves.ProofsSubst", "Scc.Props.C11Counts"], THEOREMS_COUNTS)
+    okp2, _, outp2 = common.prove(chk, "C11", ["Scc.PMoves.ProofsSubst", "Scc.Props.C11Counts", "Scc.Props.C11Balance"], THEOREMS_COUNTS)
     okp = okp and okp2
     outp = outp + outp2
     found = False
